@@ -45,6 +45,8 @@ type prover struct {
 	extra    []fact           // facts from the chosen phi edges
 	pre      *precond
 	depth    int // nesting of guard-helper look-ups
+	// sliceDepth bounds the look-through of re-slices in lenBounds
+	sliceDepth int
 }
 
 // precond is one observation of how a function is called from inside the analysed set: per parameter index the
@@ -424,6 +426,47 @@ func (p *prover) lenBounds(X ssa.Value, b *ssa.BasicBlock) (int64, int64) {
 	if g := globalLoad(X); g != nil {
 		if n, ok := p.c.tableLen(g); ok {
 			return n, n
+		}
+	}
+	// a re-slice Y[lo:hi] with bounded lo (and hi): len = (hi | len(Y)) - lo
+	if sl, ok := root.(*ssa.Slice); ok && sl.Max == nil && p.sliceDepth < 3 {
+		q := *p
+		q.sliceDepth++
+		var lo0, lo1 int64
+		okLo := true
+		if sl.Low != nil {
+			e := q.eval(sl.Low, b, 0)
+			if e.ok && e.base == nil && e.lo >= 0 && e.hi < inf {
+				lo0, lo1 = e.lo, e.hi
+			} else {
+				okLo = false
+			}
+		}
+		if okLo {
+			var h0, h1 int64
+			okHi := true
+			if sl.High != nil {
+				e := q.eval(sl.High, b, 0)
+				if e.ok && e.base == nil && e.hi < inf {
+					h0, h1 = e.lo, e.hi
+				} else {
+					okHi = false
+				}
+			} else {
+				h0, h1 = q.lenBounds(sl.X, b)
+			}
+			if okHi {
+				a := h0 - lo1
+				if a < 0 {
+					a = 0
+				}
+				if a > lo {
+					lo = a
+				}
+				if h1 < inf && h1-lo0 < hi {
+					hi = h1 - lo0
+				}
+			}
 		}
 	}
 	// preconditions on parameters
